@@ -43,7 +43,7 @@ def zoo():
             datetime.datetime(2024, 2, 29, 12, 30, tzinfo=datetime.timezone(datetime.timedelta(hours=5, minutes=30))),
             datetime.datetime.min, datetime.date.max, "\ud800", "e\u0301", "\u00e9", "\u00df", "SS", "\x00", "a\x00b",
             5e-324, -5e-324, 2.2250738585072014e-308, 1.7976931348623157e308, 10 ** 400, -10 ** 400, 2 ** 1024,
-            bytearray(b""), memoryview(b"ab"), {1: "a", None: "b", (1, 2): "c", 1.5: "d", True: "e"}, [[[[[[[[[[1]]]]]]]]]],
+            {"id": 1, ...: "x"}, {...: ...}, {...: 1, None: 2}, [{...: ...}], bytearray(b""), memoryview(b"ab"), {1: "a", None: "b", (1, 2): "c", 1.5: "d", True: "e"}, [[[[[[[[[[1]]]]]]]]]],
             {"a": {"a": {"a": {"a": {"a": {"a": 1}}}}}}]
 
 
